@@ -21,6 +21,7 @@ files) except the two lemmas other properties import: `Pybtex.parseName_error` a
 `Pybtex.mkPerson_error`.
 -/
 import PybtexModel.Spec.Names
+import PybtexModel.Spec.TeXString
 
 namespace Pybtex
 open Spec
@@ -311,6 +312,11 @@ theorem charCase_upper (c : Char) : decide (charCase c = .upper) = isUpperN c :=
   | true => simp
   | false => cases hl : isLowerN c <;> simp
 
+/-- the model's two tuples are the rule's table of built-in foreign characters -/
+theorem controlSeqs_eq :
+    lowerControlSeqs = ["i", "j", "oe", "ae", "aa", "o", "l", "ss"].map String.toList ∧
+    upperControlSeqs = ["OE", "AE", "AA", "O", "L"].map String.toList := by decide
+
 theorem specialCharIsLower_eq (sc : Str) :
     specialCharIsLower sc = decide (specialCase sc = .lower) := by
   have key : ∀ o : Option Char,
@@ -322,9 +328,24 @@ theorem specialCharIsLower_eq (sc : Str) :
     cases o with
     | none => simp
     | some c => simp only [charCase_lower]
-  unfold specialCharIsLower
-  rw [specialCharIsLowerAux_true, specialCharIsLowerAux_false]
-  exact key _
+  unfold specialCharIsLower specialCase builtinCase
+  simp only []
+  rw [← controlSeqs_eq.1, ← controlSeqs_eq.2]
+  generalize (sc.drop 1).takeWhile isAlphaN = name
+  by_cases h1 : name ∈ lowerControlSeqs
+  · have c1 : lowerControlSeqs.contains name = true := by simpa using h1
+    rw [if_pos h1, c1]
+    simp
+  · have c1 : lowerControlSeqs.contains name = false := by simpa using h1
+    by_cases h2 : name ∈ upperControlSeqs
+    · have c2 : upperControlSeqs.contains name = true := by simpa using h2
+      rw [if_neg h1, if_pos h2, c1, c2]
+      simp
+    · have c2 : upperControlSeqs.contains name = false := by simpa using h2
+      rw [if_neg h1, if_neg h2, c1, c2]
+      simp only [Bool.false_eq_true, if_false]
+      rw [specialCharIsLowerAux_true, specialCharIsLowerAux_false]
+      exact key _
 
 theorem all_lower_not_all_upper {t : Str} (hne : t ≠ []) (h : t.all isLowerN = true) :
     t.all isUpperN = false := by
@@ -376,90 +397,99 @@ theorem scan_cons_classed {c : Char} (r : Str)
   scan_cons_plain c r (classed_ne_brace h).1 (classed_ne_brace h).2
 
 theorem isLow_upper_first {c : Char} {r : Str} (h : isUpperN c = true) : isLow (c :: r) = false := by
-  unfold isLow tokenCase
-  cases scan (c :: r) with
-  | none => simp
-  | some toks => simp [charCase, h]
+  simp [isLow, tokenCase, charCase, h]
 
+/-- (the hypothesis `hs` is not needed any more: a cased first character decides before any scan) -/
 theorem isLow_lower_first {c : Char} {r : Str} (hu : isUpperN c = false) (h : isLowerN c = true)
-    (hs : (scan (c :: r)).isSome) : isLow (c :: r) = true := by
-  unfold isLow tokenCase
-  cases hr : scan (c :: r) with
-  | none => simp [hr] at hs
-  | some toks => simp [charCase, hu, h]
+    (_hs : (scan (c :: r)).isSome) : isLow (c :: r) = true := by
+  simp [isLow, tokenCase, charCase, hu, h]
+
+theorem isLow_lower_first' {c : Char} {r : Str} (h : isLowerN c = true) : isLow (c :: r) = true := by
+  have hu : isUpperN c = false := by
+    cases hu : isUpperN c with
+    | false => rfl
+    | true => rw [upper_lower_disjoint hu] at h; cases h
+  simp [isLow, tokenCase, charCase, hu, h]
 
 theorem tokenCase_uncased_first {c : Char} {r : Str} (hu : isUpperN c = false)
-    (hl : isLowerN c = false) : tokenCase (c :: r) = (scan (c :: r)).map tokCaseOf := by
-  unfold tokenCase
-  cases scan (c :: r) with
-  | none => rfl
-  | some toks => simp [charCase, hu, hl]
+    (hl : isLowerN c = false) :
+    tokenCase (c :: r) = match scan (c :: r) with | some toks => tokCaseOf toks | none => .caseless := by
+  simp only [tokenCase, List.head?_cons, Option.map_some, charCase, hu, hl, Bool.false_eq_true, if_false]
+  cases scan (c :: r) <;> rfl
 
 /-- The first-character clause adds nothing for letters: unless the token starts with a cased
-character that is not a letter, its case is the one the scan finds (first brace-level-0 letter
-or special character). -/
+character that is not a letter, the case of a token that scans is the one the scan finds (first
+brace-level-0 letter or special character). -/
 theorem tokenCase_eq_scan (tok : Str)
-    (h : ∀ c r, tok = c :: r → (isUpperN c = true ∨ isLowerN c = true) → isAlphaN c = true) :
-    tokenCase tok = (scan tok).map tokCaseOf := by
+    (h : ∀ c r, tok = c :: r → (isUpperN c = true ∨ isLowerN c = true) → isAlphaN c = true)
+    (toks : List Tok) (hs : scan tok = some toks) :
+    tokenCase tok = tokCaseOf toks := by
   cases tok with
-  | nil => simp [tokenCase]
+  | nil => simp [tokenCase, hs]
   | cons c r =>
     cases hu : isUpperN c with
     | true =>
       have ha := h c r rfl (Or.inl hu)
-      unfold tokenCase
-      rw [scan_cons_classed r (Or.inl ha)]
-      cases scan r with
-      | none => rfl
-      | some toks => simp [charCase, hu, tokCaseOf, ha]
+      rw [scan_cons_classed r (Or.inl ha)] at hs
+      cases hr : scan r with
+      | none => simp [hr] at hs
+      | some toks' =>
+        simp only [hr, Option.map_some, Option.some.injEq] at hs
+        subst hs
+        simp [tokenCase, charCase, hu, tokCaseOf, ha]
     | false =>
       cases hl : isLowerN c with
-      | false => exact tokenCase_uncased_first hu hl
+      | false => rw [tokenCase_uncased_first hu hl, hs]
       | true =>
         have ha := h c r rfl (Or.inr hl)
-        unfold tokenCase
-        rw [scan_cons_classed r (Or.inl ha)]
-        cases scan r with
-        | none => rfl
-        | some toks => simp [charCase, hu, hl, tokCaseOf, ha]
+        rw [scan_cons_classed r (Or.inl ha)] at hs
+        cases hr : scan r with
+        | none => simp [hr] at hs
+        | some toks' =>
+          simp only [hr, Option.map_some, Option.some.injEq] at hs
+          subst hs
+          simp [tokenCase, charCase, hu, hl, tokCaseOf, ha]
 
-/-- the tokens whose case the rule can decide without scanning past the nesting limit -/
-theorem isVonName_ok {t : Str} {b : Bool} (h : isVonName t = .ok b) (hk : caseKnown t = true) :
-    b = isLow t := by
-  unfold isVonName at h
-  split at h
-  · cases h
+/-- a token that does not scan (braces nested deeper than the limit) and does not start with a
+cased character has no case -/
+theorem tokenCase_overnested {tok : Str} (hs : scan tok = none)
+    (h : ∀ c r, tok = c :: r → isUpperN c = false ∧ isLowerN c = false) :
+    tokenCase tok = .caseless := by
+  cases tok with
+  | nil => simp [tokenCase, hs]
+  | cons c r => rw [tokenCase_uncased_first (h c r rfl).1 (h c r rfl).2, hs]
+
+/-- `is_von_name` is the rule's "the token is lower-case" on EVERY non-empty token -/
+theorem isVonName_eq {t : Str} (hne : t ≠ []) : isVonName t = .ok (isLow t) := by
+  unfold isVonName
+  split
+  · exact absurd rfl hne
   · rename_i c r
-    split at h
-    · rename_i hu; cases h; exact (isLow_upper_first hu).symm
+    split
+    · rename_i hu; rw [isLow_upper_first hu]
     · rename_i hu
       have hu' : isUpperN c = false := by simpa using hu
-      have hs : (scan (c :: r)).isSome := by simpa [caseKnown, hu] using hk
-      split at h
-      · rename_i hl; cases h; exact (isLow_lower_first hu' hl hs).symm
+      split
+      · rename_i hl; rw [isLow_lower_first' hl]
       · rename_i hl
         have hl' : isLowerN c = false := by simpa using hl
-        split at h
-        · cases h
-        · rename_i toks htoks
-          cases h
-          simp [isLow, tokenCase_uncased_first hu' hl', htoks, vonScan_eq]
+        simp only [isLow, tokenCase_uncased_first hu' hl']
+        split <;> simp_all [vonScan_eq]
+
+/-- (the hypothesis `hk` is not needed any more; kept for the callers in C02) -/
+theorem isVonName_ok {t : Str} {b : Bool} (h : isVonName t = .ok b) (_hk : caseKnown t = true) :
+    b = isLow t := by
+  cases t with
+  | nil => simp [isVonName] at h
+  | cons c r =>
+    rw [isVonName_eq (by simp)] at h
+    cases h; rfl
 
 theorem isVonName_error {t : Str} {e : NameErr} (h : isVonName t = .error e) :
-    (t = [] ∧ e = .indexError) ∨
-    (e = .tooDeep ∧ scan t = none ∧ caseKnown t = false) := by
-  unfold isVonName at h
-  split at h
-  · cases h; simp
-  · rename_i c r
-    split at h
-    · cases h
-    · rename_i hu
-      split at h
-      · cases h
-      · split at h
-        · rename_i hs; cases h; simp [hs, caseKnown, hu]
-        · cases h
+    t = [] ∧ e = .indexError := by
+  cases t with
+  | nil => simp [isVonName] at h; exact ⟨rfl, h.symm⟩
+  | cons c r => rw [isVonName_eq (by simp)] at h; cases h
 
 /-! ### tokens and comma parts -/
 
@@ -646,21 +676,18 @@ theorem mem_drop_sub_one {α} {ts : List α} {t : α} (h : t ∈ ts.drop (ts.len
 end Names
 open Names
 
-/-- The only error of `_parse_string` on a non-empty string is `too many nested braces`, raised
-by `is_von_name` on one of the tokens whose case is examined. -/
-theorem parseName_error {name : Str} {e : NameErr} (hne : name ≠ [])
-    (h : parseName name = .error e) :
-    e = .tooDeep ∧ ∃ t ∈ caseTokens name, scan t = none ∧ caseKnown t = false := by
+/-- `_parse_string` on a non-empty string raises nothing (after the repair C04-1 `is_von_name`
+answers on every non-empty token, and tokens are never empty). -/
+theorem parseName_no_error {name : Str} {e : NameErr} (hne : name ≠ [])
+    (h : parseName name = .error e) : False := by
   have hparts := splitTex_comma_ne_nil hne
   -- every examined token is a non-empty token
   have fin : ∀ t, t ∈ caseTokens name → (∃ s, t ∈ splitTex .space s) → isVonName t = .error e →
-      e = .tooDeep ∧ ∃ t ∈ caseTokens name, scan t = none ∧ caseKnown t = false := by
-    intro t ht ⟨s, hs⟩ he
-    rcases isVonName_error he with ⟨h0, _⟩ | ⟨h1, h2, h3⟩
-    · exact absurd h0 (splitTex_space_ne_nil hs)
-    · exact ⟨h1, t, ht, h2, h3⟩
+      False := by
+    intro t _ ⟨s, hs⟩ he
+    exact absurd (isVonName_error he).1 (splitTex_space_ne_nil hs)
   unfold parseName at h
-  unfold caseTokens at fin ⊢
+  unfold caseTokens at fin
   generalize hp : splitTex .comma name = parts0 at h hparts fin
   match parts0, hparts with
   | [a], _ =>
@@ -712,22 +739,41 @@ theorem parseName_error {name : Str} {e : NameErr} (hne : name ≠ [])
       exact fin t ht ⟨_, mem_of_mem_dropLast ht⟩ hp
     · cases h
 
-/-- `Person(string, …)` raises nothing but `too many nested braces`, for all six arguments. -/
-theorem mkPerson_error {s f m p l j : Str} {e : NameErr}
-    (h : mkPerson s f m p l j = .error e) :
-    e = .tooDeep ∧ strip s ≠ [] ∧ parseName (strip s) = .error .tooDeep := by
+/-- `_parse_string` succeeds on every non-empty string -/
+theorem parseName_total {name : Str} (hne : name ≠ []) : ∃ r, parseName name = .ok r := by
+  cases h : parseName name with
+  | ok r => exact ⟨r, rfl⟩
+  | error e => exact (parseName_no_error hne h).elim
+
+/-- `Person(string, …)` raises nothing, for all six arguments. -/
+theorem mkPerson_no_error {s f m p l j : Str} {e : NameErr}
+    (h : mkPerson s f m p l j = .error e) : False := by
   unfold mkPerson at h
   simp only [] at h
   split at h
   · rename_i e' he
-    cases h
     split at he
-    · rename_i hne
-      have := (parseName_error hne he).1
-      subst this
-      exact ⟨rfl, hne, he⟩
+    · rename_i hne; exact parseName_no_error hne he
     · cases he
   · cases h
+
+theorem mkPerson_total (s f m p l j : Str) : ∃ r, mkPerson s f m p l j = .ok r := by
+  cases h : mkPerson s f m p l j with
+  | ok r => exact ⟨r, rfl⟩
+  | error e => exact (mkPerson_no_error h).elim
+
+/-- (statement from before the repair C04-1, when `too many nested braces` could be raised; its
+hypothesis is now impossible — kept for the callers in C02 / C11) -/
+theorem parseName_error {name : Str} {e : NameErr} (hne : name ≠ [])
+    (h : parseName name = .error e) :
+    e = .tooDeep ∧ ∃ t ∈ caseTokens name, scan t = none ∧ caseKnown t = false :=
+  (parseName_no_error hne h).elim
+
+/-- (statement from before the repair C04-1; its hypothesis is now impossible) -/
+theorem mkPerson_error {s f m p l j : Str} {e : NameErr}
+    (h : mkPerson s f m p l j = .error e) :
+    e = .tooDeep ∧ strip s ≠ [] ∧ parseName (strip s) = .error .tooDeep :=
+  (mkPerson_no_error h).elim
 
 namespace Names
 
@@ -1035,18 +1081,141 @@ theorem splitWith_one (q : Str → Bool) (name : Str) (a : Str) (hp : splitTex .
         rw [h4 t ht] at hq; cases hq
       | cons y post' => exact ⟨x, by simp, h3⟩
 
-/-- `is_von_name` decides the case of every non-empty token whose case is decidable -/
-theorem isVonName_eq_isLow {t : Str} (hne : t ≠ []) (hk : caseKnown t = true) :
-    isVonName t = .ok (isLow t) := by
-  cases h : isVonName t with
-  | error e =>
-    rcases isVonName_error h with ⟨h0, _⟩ | ⟨_, _, h3⟩
-    · exact absurd h0 hne
-    · rw [hk] at h3; cases h3
-  | ok b => rw [isVonName_ok h hk]
+/-- (the hypothesis `hk` is not needed any more: `isVonName_eq`) -/
+theorem isVonName_eq_isLow {t : Str} (hne : t ≠ []) (_hk : caseKnown t = true) :
+    isVonName t = .ok (isLow t) := isVonName_eq hne
+
+theorem caseTokens_ne_nil {name t : Str} (h : t ∈ caseTokens name) : t ≠ [] := by
+  unfold caseTokens at h
+  split at h
+  · simp at h
+  · exact splitTex_space_ne_nil h
+  · exact splitTex_space_ne_nil (mem_of_mem_dropLast h)
+
+/-- `_parse_string` IS the rule, on every non-empty string -/
+theorem parseName_eq_split {name : Str} (hne : name ≠ []) : parseName name = .ok (Spec.split name) := by
+  obtain ⟨r, hr⟩ := parseName_total hne
+  rw [hr, split_eq, parseName_ok hr (fun t ht b hb => by
+    rw [isVonName_eq (caseTokens_ne_nil ht)] at hb; cases hb; rfl)]
+
+theorem takeWhile_append_stop {p : Char → Bool} {cs rest : Str} (hcs : cs.all p = true)
+    (hrest : ∀ c r, rest = c :: r → p c = false) : (cs ++ rest).takeWhile p = cs := by
+  induction cs with
+  | nil =>
+    cases rest with
+    | nil => rfl
+    | cons c r => simp [hrest c r rfl]
+  | cons a cs ih =>
+    simp only [List.all_cons, Bool.and_eq_true] at hcs
+    simp only [List.cons_append, List.takeWhile_cons, hcs.1, if_true, ih hcs.2]
+
+/-- a successful parse is the rule's split (any string) -/
+theorem parseName_ok_isLow {name : Str} {r : Person × Bool} (h : parseName name = .ok r) :
+    r = splitWith isLow name :=
+  parseName_ok h (fun t ht b hb => by
+    rw [isVonName_eq (caseTokens_ne_nil ht)] at hb; cases hb; rfl)
 
 theorem caseKnown_of_scan {t : Str} (h : (scan t).isSome = true) : caseKnown t = true := by
   simp [caseKnown, h]
+
+/-! ### brace balance of stripped / joined pieces (for `C04_groups_never_split`) -/
+
+theorem ws_ne_brace {c : Char} (h : isWs c = true) : c ≠ '{' ∧ c ≠ '}' := by
+  constructor <;> rintro rfl <;> revert h <;> decide
+
+theorem depthAfter_app (a b : Str) : ∀ d, depthAfter d (a ++ b) = (depthAfter d a).bind fun d' => depthAfter d' b := by
+  induction a with
+  | nil => intro d; simp [depthAfter]
+  | cons c r ih =>
+    intro d
+    simp only [List.cons_append, depthAfter]
+    split
+    · exact ih _
+    · split
+      · split
+        · rfl
+        · exact ih _
+      · exact ih _
+
+theorem depthAfter_ws (w : Str) (hw : ∀ c ∈ w, isWs c = true) : ∀ d, depthAfter d w = some d := by
+  induction w with
+  | nil => intro d; rfl
+  | cons c r ih =>
+    intro d
+    have hc := ws_ne_brace (hw c (by simp))
+    simp only [depthAfter, if_neg hc.1, if_neg hc.2]
+    exact ih (fun x hx => hw x (by simp [hx])) d
+
+theorem depthAfter_ws_append (w a : Str) (hw : ∀ c ∈ w, isWs c = true) (d : Nat) :
+    depthAfter d (w ++ a) = depthAfter d a := by
+  rw [depthAfter_app, depthAfter_ws w hw]; rfl
+
+theorem depthAfter_append_ws (a w : Str) (hw : ∀ c ∈ w, isWs c = true) (d : Nat) :
+    depthAfter d (a ++ w) = depthAfter d a := by
+  rw [depthAfter_app]
+  cases h : depthAfter d a with
+  | none => rfl
+  | some e => simp [depthAfter_ws w hw]
+
+theorem of_mem_takeWhile {p : Char → Bool} {l : Str} {c : Char} (h : c ∈ l.takeWhile p) : p c = true := by
+  induction l with
+  | nil => simp at h
+  | cons a r ih =>
+    rw [List.takeWhile_cons] at h
+    split at h
+    · rcases List.mem_cons.mp h with rfl | h
+      · assumption
+      · exact ih h
+    · simp at h
+
+theorem depthAfter_lstrip (s : Str) (d : Nat) : depthAfter d (lstrip s) = depthAfter d s := by
+  have h := List.takeWhile_append_dropWhile (p := isWs) (l := s)
+  have key := depthAfter_ws_append (s.takeWhile isWs) (s.dropWhile isWs) (fun c hc => of_mem_takeWhile hc) d
+  rw [h] at key
+  exact key.symm
+
+theorem depthAfter_rstrip (s : Str) (d : Nat) : depthAfter d (rstrip s) = depthAfter d s := by
+  have h := List.takeWhile_append_dropWhile (p := isWs) (l := s.reverse)
+  have h' : (s.reverse.dropWhile isWs).reverse ++ (s.reverse.takeWhile isWs).reverse = s := by
+    have := congrArg List.reverse h
+    rw [List.reverse_append, List.reverse_reverse] at this
+    exact this
+  have key := depthAfter_append_ws (s.reverse.dropWhile isWs).reverse (s.reverse.takeWhile isWs).reverse
+    (fun c hc => of_mem_takeWhile (List.mem_reverse.mp hc)) d
+  rw [h'] at key
+  exact key.symm
+
+theorem balanced_strip (s : Str) : balanced (strip s) = balanced s := by
+  simp only [balanced, strip, depthAfter_rstrip, depthAfter_lstrip]
+
+theorem balanced_append {a b : Str} (ha : balanced a = true) (hb : balanced b = true) :
+    balanced (a ++ b) = true := by
+  simp only [balanced, decide_eq_true_eq] at ha hb ⊢
+  rw [depthAfter_app, ha]; exact hb
+
+theorem balanced_joinWith_blank (l : List Str) (h : ∀ x ∈ l, balanced x = true) :
+    balanced (joinWith [' '] l) = true := by
+  induction l with
+  | nil => decide
+  | cons x r ih =>
+    cases r with
+    | nil => simpa [joinWith] using h x (by simp)
+    | cons y r' =>
+      simp only [joinWith]
+      exact balanced_append (balanced_append (h x (by simp)) (by decide))
+        (ih (fun z hz => h z (by simp [hz])))
+
+/-- pieces of `split_tex_string` (stripped, possibly filtered) are balanced when the raw pieces are -/
+theorem splitTex_balanced_of_raw {sep : Sep} {s : Str}
+    (hraw : ∀ q ∈ splitTexRaw sep s, balanced q = true) : ∀ t ∈ splitTex sep s, balanced t = true := by
+  intro t ht
+  simp only [splitTex] at ht
+  have hm : t ∈ (splitTexRaw sep s).map strip := by
+    split at ht
+    · exact (List.mem_filter.1 ht).1
+    · exact ht
+  obtain ⟨q, hq, rfl⟩ := List.mem_map.1 hm
+  rw [balanced_strip]; exact hraw q hq
 
 /-! ### witnesses used by the non-vacuity examples -/
 
